@@ -43,6 +43,7 @@ type Solver struct {
 	dead      bool
 
 	asserted [][]*Term // per level: the asserted terms (for one-shot fallback queries)
+	sent     int       // levels actually pushed in the solver process (<= level)
 	helper   *Solver   // non-incremental fallback process (z3 is much stronger without push/pop)
 	fastMs   int
 	OneShot  int
@@ -109,11 +110,23 @@ func (s *Solver) send(line string) {
 	io.WriteString(s.in, "\n")
 }
 
+// Push/Assert/PopTo are lazy: levels above s.sent exist only in s.asserted until a
+// check needs them (paths decided entirely by the finite-domain filter never reach z3).
 func (s *Solver) Push() {
-	s.send("(push 1)")
 	s.level++
-	s.byLevel = append(s.byLevel, nil)
 	s.asserted = append(s.asserted, nil)
+}
+
+func (s *Solver) flush() {
+	for s.sent < s.level {
+		s.sent++
+		s.send("(push 1)")
+		s.byLevel = append(s.byLevel, nil)
+		for _, t := range s.asserted[s.sent] {
+			s.ensure(t)
+			s.send(fmt.Sprintf("(assert %s)", ref(t)))
+		}
+	}
 }
 
 func (s *Solver) PopTo(level int) {
@@ -123,14 +136,17 @@ func (s *Solver) PopTo(level int) {
 	if level == s.level {
 		return
 	}
-	n := s.level - level
-	s.send(fmt.Sprintf("(pop %d)", n))
-	for l := s.level; l > level; l-- {
-		for _, id := range s.byLevel[l] {
-			delete(s.defined, id)
+	if level < s.sent {
+		n := s.sent - level
+		s.send(fmt.Sprintf("(pop %d)", n))
+		for l := s.sent; l > level; l-- {
+			for _, id := range s.byLevel[l] {
+				delete(s.defined, id)
+			}
 		}
+		s.byLevel = s.byLevel[:level+1]
+		s.sent = level
 	}
-	s.byLevel = s.byLevel[:level+1]
 	s.asserted = s.asserted[:level+1]
 	s.level = level
 }
@@ -181,8 +197,8 @@ func (s *Solver) ensure(t *Term) {
 			}
 			s.send(fmt.Sprintf("(define-fun t%d () %s %s)", u.id, sortOf(u.w), bodySMT(u)))
 		}
-		s.defined[u.id] = s.level
-		s.byLevel[s.level] = append(s.byLevel[s.level], u.id)
+		s.defined[u.id] = s.sent
+		s.byLevel[s.sent] = append(s.byLevel[s.sent], u.id)
 	}
 }
 
@@ -190,9 +206,11 @@ func (s *Solver) Assert(t *Term) {
 	if t.w != 0 {
 		panic("Assert of non-bool term")
 	}
-	s.ensure(t)
-	s.send(fmt.Sprintf("(assert %s)", ref(t)))
 	s.asserted[s.level] = append(s.asserted[s.level], t)
+	if s.level == s.sent {
+		s.ensure(t)
+		s.send(fmt.Sprintf("(assert %s)", ref(t)))
+	}
 }
 
 func (s *Solver) readLine() (string, error) {
@@ -225,7 +243,7 @@ func (s *Solver) checkOneShot() (SatResult, Model) {
 	h.send("(set-option :print-success false)")
 	h.send("(set-option :produce-models true)")
 	h.send(fmt.Sprintf("(set-option :timeout %d)", s.timeout))
-	h.level = 0
+	h.level, h.sent = 0, 0
 	h.defined = map[int32]int{}
 	h.byLevel = [][]int32{nil}
 	h.asserted = [][]*Term{nil}
@@ -247,6 +265,7 @@ func (s *Solver) checkOneShot() (SatResult, Model) {
 // checkInc runs check-sat; on Sat it fetches values for all declared variables that
 // are currently in scope and returns them as a model.
 func (s *Solver) checkInc() (SatResult, Model) {
+	s.flush()
 	t0 := time.Now()
 	s.Queries++
 	s.send("(check-sat)")
